@@ -277,6 +277,9 @@ func (r *result) adjustAnnotations(annotations map[string]string, plugin string)
 	}
 
 	for k := range del {
+		r.owners.clearAnnotation(id, k)
+		delete(create.Container.Annotations, k)
+		delete(r.reply.adjust.Annotations, k)
 		r.reply.adjust.Annotations[MarkForRemoval(k)] = ""
 	}
 
